@@ -29,11 +29,14 @@ def disjoint(tabs):
     return True
 
 
-def make_case(tabs, nkeys, super_=True):
+LOADERS = ["", "disk", "disk-shared", "skiplist", "map", "disk-shared"]
+
+
+def make_case(tabs, nkeys, super_=True, loader=""):
     faults = [{"kind": "compact-latest", "input": -1, "inpos": -1, "outpos": -1}, {"kind": "compact-skiptomb", "input": -1, "inpos": -1, "outpos": -1}]
     if disjoint(tabs):
         faults.append({"kind": "merge", "input": -1, "inpos": -1, "outpos": -1})
-    return {"tables": tabs, "probes": list(range(nkeys)), "ranges": [[lo, hi] for lo in range(nkeys) for hi in range(nkeys)], "faults": faults, "super": super_}
+    return {"tables": tabs, "probes": list(range(nkeys)), "ranges": [[lo, hi] for lo in range(nkeys) for hi in range(nkeys)], "faults": faults, "super": super_, "loader": loader}
 
 
 def run(tier):
@@ -64,14 +67,14 @@ def run(tier):
             fam = fams[bi % len(fams)]
             keys = concrete.key_family(fam, nk, rng)
             vals = concrete.value_family(concrete.VALUE_FAMILIES[bi % 4], ["v1", "v2", "v3", "v4"], rng)
-            cases = [make_case(mergerun.tables_from_beh(b, nk), nk) for b in behs[bi::nb]]
+            cases = [make_case(mergerun.tables_from_beh(b, nk), nk, loader=LOADERS[(bi + ci) % len(LOADERS)]) for ci, b in enumerate(behs[bi::nb])]
             if cases:
                 batches.append(("%s-k%d-%d" % (fam, nk, bi), keys, vals, cases))
     # seeded bigger lists
     nbig = 30 if thorough else 9
     for i in range(nbig):
         nk = rng.choice([20, 60, 200])
-        nt = rng.randrange(2, 9) if i % 3 else rng.choice([1, 9, 16, 33])   # one table; more tables than a small heap holds
+        nt = rng.randrange(2, 9) if i % 3 else rng.choice([1, 9, 16, 33, 70])   # one table; more tables than a small heap holds; more than 64
         keys = concrete.key_family(rng.choice(["empty0", "be4", "ascii", "nonutf8"]), nk, rng)
         toks = ["v%d" % (t + 1) for t in range(nt)]
         vals = concrete.value_family(rng.choice(concrete.VALUE_FAMILIES), toks, rng)
@@ -82,7 +85,7 @@ def run(tier):
         pr = sorted(set(rng.sample(range(nk), min(nk, 15)) + [0, nk - 1]))
         case = {"tables": tabs, "probes": pr, "ranges": [[rng.randrange(nk), rng.randrange(nk)] for _ in range(25)] + [[0, nk - 1], [0, 0]],
                 "faults": [{"kind": "compact-latest", "input": -1, "inpos": -1, "outpos": -1}, {"kind": "compact-skiptomb", "input": -1, "inpos": -1, "outpos": -1}],
-                "super": True}
+                "super": True, "loader": LOADERS[i % len(LOADERS)]}
         batches.append(("big-%d" % i, keys, vals, [case]))
     total = mergerun.run_batches(o, binary, batches, "C08")
     o.evaluations = total
